@@ -232,6 +232,9 @@ def judgeTrip (a b : SR Float) (nilAB nilBA : Bool) (t : Trip) (errs : String) :
       let da := if a.datum.dtype = pjdNoDatum then w else a.datum
       let db := if b.datum.dtype = pjdNoDatum then w else b.datum
       let bound := heightLossBound da db
+      -- the bound is computed from the datum records the implementation built: a scale factor further than 1000 ppm from 1
+      -- (the generator writes at most 20 ppm; seeded C08-h1 leaves 0) would inflate it to an Earth radius and accept anything
+      let saneScale (d : Datum Float) : Bool := !(d.dtype = pjd7Param) || (d.p6 - 1.0).abs ≤ 1.0e-3
       let coslat := max 1.0e-3 ((t.p.2 * pi / 180.0).cos)
       -- displacement p -> p2 on the ground, in metres
       let ground := 111200.0 * (max (dLon t * coslat) (dLat t)) * 1.5
@@ -240,7 +243,7 @@ def judgeTrip (a b : SR Float) (nilAB nilBA : Bool) (t : Trip) (errs : String) :
       let rotSum (d : Datum Float) : Float := d.p3.abs + d.p4.abs + d.p5.abs
       let helmert := rt == "hopsame" && a.datum.dtype = pjd7Param && ground ≤ 6.4e6 * rotSum a.datum * rotSum a.datum * 2.0 + 1.0e-4
       let (explained, known) : String × Bool :=
-        if lossy && ground ≤ bound then ("height-lost-2D", true) else if helmert then ("helmert-small-angle", true)
+        if lossy && saneScale da && saneScale db && ground ≤ bound then ("height-lost-2D", true) else if helmert then ("helmert-small-angle", true)
         else ("unexplained", false)
       if !angleOK t then
         some (s!"angle-off {explained} dlon={dLon t} dlat={dLat t} p=({t.p.1},{t.p.2}) p2=({t.p2.1},{t.p2.2})", known)
